@@ -184,6 +184,10 @@ def c12Model (i : Input) (q : C12Probes) : List (String × String) :=
         if !on then [] else
           q.encs.map (fun x => (s!"{tag}.enc:{x}", showStr (encode i.kind i.T cs x)))
           ++ (valuesT cs).map (fun x => (s!"{tag}.rt:{x}", showDec (rt x).obs))
+          -- the same again after the caller has scribbled over every byte the encoder handed out: the emitted
+          -- encoders have no state (a fresh conversion of String() per call), so nothing changes
+          ++ q.encs.map (fun x => (s!"{tag}.enc2:{x}", showStr (encode i.kind i.T cs x)))
+          ++ (valuesT cs).map (fun x => (s!"{tag}.rt2:{x}", showDec (rt x).obs))
       [("exit", "0"), ("compile", "ok"),
        ("has.json", toString q.json), ("has.text", toString q.text), ("has.sql", toString q.sql), ("has.gorm", toString q.gorm)]
       ++ codec q.json "json" (fun x => unmarshalJSON vm (.str (encode i.kind i.T cs x).text) q.target)
@@ -212,6 +216,9 @@ def c12Spec (i : Input) (q : C12Probes) : List (String × String) :=
     if !on then [] else
       q.encs.map (fun x => (s!"{tag}.enc:{x}", showStr (specString T d x)))
       ++ (specValues d).map (fun x => (s!"{tag}.rt:{x}", showDec (true, x)))
+      -- encoders are functions of the value: what a caller did to earlier results is irrelevant
+      ++ q.encs.map (fun x => (s!"{tag}.enc2:{x}", showStr (specString T d x)))
+      ++ (specValues d).map (fun x => (s!"{tag}.rt2:{x}", showDec (true, x)))
   [("exit", "0"), ("compile", "ok")]
   ++ codec q.json "json" ++ codec q.text "text" ++ codec q.sql "sql"
   ++ (if q.json then (enumerate q.jsons).map (fun (j, x) => (s!"json.dec:{j}", showDec (specDecode T d x.asName q.target))) else [])
